@@ -34,7 +34,9 @@ def judgeRW (d : Desc) (wIds : List String) (wMe : Nat) (rIds : List String) (rM
       let zs := dedupS (rIds.map zoneOf)
       (subsetsOfSize (zs.length - rMuz) zs).map fun Zs => rIds.filter fun id => Zs.contains (zoneOf id)
     else subsetsOfSize (rIds.length - rMe) rIds
-  if as.all fun A => bs.all fun B => A.any fun x => B.contains x then [] else ["write-and-read-quorums-disjoint"]
+  let unknown := (wIds ++ rIds).any fun id => (d.get? id).isNone
+  (if unknown then ["replication-set-member-not-registered"] else []) ++
+  (if as.all fun A => bs.all fun B => A.any fun x => B.contains x then [] else ["write-and-read-quorums-disjoint"])
 
 def handleRW (f : List String) : String × String × String :=
   match f with
